@@ -219,12 +219,22 @@ def shrink(plugin, exe, f, max_trials=150):
     trials = 0
     keep_first = getattr(plugin, "SHRINK_KEEP_FIRST", 0)
     n = 2
+    pure = getattr(plugin, "ORACLE_PURE", False) and hasattr(plugin, "oracle")
+    def verdict(g):
+        try:
+            return bool(plugin.oracle(list(g.case), g.impl, g.model, g.crash)[0])
+        except Exception:
+            return False
+    want = verdict(f) if pure else False
     def same(g):
         if g is None:
             return False
         if f.kind == "crash":
             return g.kind == "crash" and (g.crash or "").split(":")[0] == (f.crash or "").split(":")[0]
-        return g.kind == "diverge"
+        if g.kind != "diverge":
+            return False
+        # a failure that breaks a clause of the property must keep breaking one while it is shrunk
+        return verdict(g) if want else True
     while len(case) - keep_first >= 2 and trials < max_trials:
         body = case[keep_first:]
         chunk = max(1, len(body) // n)
@@ -571,6 +581,13 @@ def run_parallel(plugin, exe, cases, timeout):
         for fs, v in ex.map(lambda b: run_both(plugin, exe, b, timeout), batches):
             fails.extend(fs)
             validated += v
+    if getattr(plugin, "ORACLE_PURE", False) and hasattr(plugin, "oracle"):
+        def rank(f):
+            try:
+                return 0 if plugin.oracle(list(f.case), f.impl, f.model, f.crash)[0] else 1
+            except Exception:
+                return 1
+        fails = sorted(fails[:64], key=rank)    # stable: property-breaking failures first
     return fails[:8], validated
 
 
